@@ -135,7 +135,11 @@ def canon_result(op, r, messages=True, lockstep=False):
     elif r.get("r") == "err":
         out["k"] = r.get("k")
         if messages and r.get("k") != "BadJson":
-            out["m"] = r.get("m")
+            m = r.get("m")
+            if isinstance(m, str) and m.startswith("Story was running a function"):
+                # the real message appends the function's name and a call-stack trace (diagnostic text)
+                m = "Story was running a function when you called ChoosePathString"
+            out["m"] = m
     elif r.get("r") == "panic":
         pass  # site names differ (file:line vs model tag); class only
     ev = canon_events(r.get("ev"))
